@@ -20,6 +20,10 @@
 (*         (VERIF_SEED noise); fields the code matches against session     *)
 (*         state - epoch, message_seq, transaction id - are not free       *)
 (*   tail  fixed leaf located at the end of its group (RTP/RTCP pad count) *)
+(*   sq    the field is a sequence number: name of its sequence space. Its   *)
+(*         interesting values are relative to the endpoint's CURRENT state   *)
+(*         (the cumulative TSN, the next expected message_seq ...), so the   *)
+(*         harness asks the live endpoint for the current value of the space *)
 (*   ew    for a variable leaf that is a list of fixed-width elements: the  *)
 (*         element width (its byte length should be a multiple of it)       *)
 (*                                                                         *)
@@ -33,7 +37,7 @@
 EXTENDS Naturals, Integers, Sequences, FiniteSets
 
 L0 == [n |-> "", k |-> "fixed", w |-> 0, ov |-> FALSE, mask |-> 0, of |-> "", unit |-> 1, bias |-> 0,
-       g |-> <<>>, unk |-> 0, el |-> FALSE, free |-> FALSE, tail |-> FALSE, s |-> "", ew |-> 0]
+       g |-> <<>>, unk |-> 0, el |-> FALSE, free |-> FALSE, tail |-> FALSE, s |-> "", ew |-> 0, sq |-> ""]
 
 Fx(g, n, w)      == [L0 EXCEPT !.g = g, !.n = n, !.w = w]                       \* constrained fixed field
 Fr(g, n, w)      == [L0 EXCEPT !.g = g, !.n = n, !.w = w, !.free = TRUE]       \* unconstrained fixed field
@@ -52,6 +56,7 @@ Ov(l, m)         == [l EXCEPT !.ov = TRUE, !.mask = m]
 El(l)            == [l EXCEPT !.el = TRUE]
 Tl(l)            == [l EXCEPT !.tail = TRUE]
 Lw(l, w)         == [l EXCEPT !.ew = w]          \* a list of fixed-width elements, w bytes each
+Sq(l, space)     == [l EXCEPT !.sq = space]      \* a sequence number of the named space (serial arithmetic)
 
 ---------------------------------------------------------------------------
 (* RTP  (src/rtp.rs RtpHeader::parse / RtpPacket::parse)                    *)
@@ -62,7 +67,7 @@ RtpFixed(g, x, cc, p) ==
      Ov(Ct(g, "p", 1, "", 0), 32),
      Ov(Ct(g, "x", 1, "", 0), 16),
      Ov(Ct(g, "cc", 1, "csrc", 4), 15),
-     Fr(g, "mpt", 1), Fr(g, "seq", 2), Fr(g, "ts", 4), Fr(g, "ssrc", 4),
+     Fr(g, "mpt", 1), Sq(Fr(g, "seq", 2), "rtp_seq"), Fr(g, "ts", 4), Fr(g, "ssrc", 4),
      Lw(Vr(g, "csrc"), 4) >>
 
 R == <<"rtp">>
@@ -144,7 +149,7 @@ RtcpNack ==
   LET g == <<"nack">> b == <<"nack", "nackbody">> IN
   RtcpHdr(g, "", 0, 31, "nackbody") \o
   << Fr(b, "sender", 4), Fr(b, "media", 4),
-     El(Fr(b \o <<"f1">>, "pid1", 2)), Fr(b \o <<"f1">>, "blp1", 2),
+     El(Sq(Fr(b \o <<"f1">>, "pid1", 2), "rtp_seq_out")), Fr(b \o <<"f1">>, "blp1", 2),
      El(Fr(b \o <<"f2">>, "pid2", 2)), Fr(b \o <<"f2">>, "blp2", 2) >>
 
 RtcpTwcc ==
@@ -221,12 +226,12 @@ TcpFrame(inner) ==
 (* DTLS  (dtls/record.rs, dtls/handshake.rs, dtls/mod.rs reassembly)        *)
 
 DtlsRec(r) ==
-  << El(Tg(<<r>>, r \o ".ctype", 1, 99)), Fx(<<r>>, r \o ".ver", 2), Fx(<<r>>, r \o ".epoch", 2), Fr(<<r>>, r \o ".seq", 6),
+  << El(Tg(<<r>>, r \o ".ctype", 1, 99)), Fx(<<r>>, r \o ".ver", 2), Fx(<<r>>, r \o ".epoch", 2), Sq(Fr(<<r>>, r \o ".seq", 6), "dtls_rseq"),
      Ln(<<r>>, r \o ".length", 2, r \o ".frag", 1, 0) >>
 \* one handshake message header inside record r (body group name hb)
 DtlsHsHdr(r, h) ==
   LET g == <<r, r \o ".frag", h>> IN
-  << El(Tg(g, h \o ".type", 1, 99)), Ln(g, h \o ".length", 3, h \o ".body", 1, 0), Fx(g, h \o ".mseq", 2),
+  << El(Tg(g, h \o ".type", 1, 99)), Ln(g, h \o ".length", 3, h \o ".body", 1, 0), Sq(Fx(g, h \o ".mseq", 2), "dtls_mseq"),
      Fx(g, h \o ".foff", 3), Ln(g, h \o ".flen", 3, h \o ".body", 1, 0) >>
 
 \* one extension with opaque value / the use_srtp extension (profile list, MKI length)
@@ -293,7 +298,7 @@ DgCke         == DtlsFlight("cke", CkeBody)
 DgFrag ==
   LET g == <<"r1", "r1.frag", "fr">> IN
   DtlsRec("r1") \o
-  << El(Tg(g, "fr.type", 1, 99)), Ln(g, "fr.length", 3, "", 1, 0), Fx(g, "fr.mseq", 2),
+  << El(Tg(g, "fr.type", 1, 99)), Ln(g, "fr.length", 3, "", 1, 0), Sq(Fx(g, "fr.mseq", 2), "dtls_mseq"),
      Ln(g, "fr.foff", 3, "", 1, 0), Ln(g, "fr.flen", 3, "fr.body", 1, 0), Vr(g, "fr.body") >>
 \* ChangeCipherSpec / encrypted records: header + opaque
 DgOpaque      == DtlsRec("r1") \o << Vr(<<"r1">>, "r1.frag") >>
@@ -329,7 +334,7 @@ SctpCookieAck  == SctpHdr \o ChunkHdr("ca") \o << Vr(SC \o <<"ca">>, "ca.val"), 
 
 DataBody(c) ==
   LET g == SC \o <<c, c \o ".val">> IN
-  << Fr(g, c \o ".tsn", 4), Fr(g, c \o ".sid", 2), Fr(g, c \o ".ssn", 2), Tg(g, c \o ".ppid", 4, 99), Rs(g, c \o ".user") >>
+  << Sq(Fr(g, c \o ".tsn", 4), "tsn_in"), Fr(g, c \o ".sid", 2), Sq(Fr(g, c \o ".ssn", 2), "ssn"), Tg(g, c \o ".ppid", 4, 99), Rs(g, c \o ".user") >>
 SctpData == SctpHdr \o ChunkHdr("data") \o DataBody("data") \o << Pd(SC \o <<"data">>, "data.pad", 4) >>
 
 \* DATA carrying a DCEP DATA_CHANNEL_OPEN
@@ -339,13 +344,13 @@ DcepOpenLeaves(g) ==
 SctpDcepOpen ==
   LET g == SC \o <<"data", "data.val">> IN
   SctpHdr \o ChunkHdr("data") \o
-  << Fr(g, "data.tsn", 4), Fr(g, "data.sid", 2), Fr(g, "data.ssn", 2), Tg(g, "data.ppid", 4, 99) >> \o
+  << Sq(Fr(g, "data.tsn", 4), "tsn_in"), Fr(g, "data.sid", 2), Sq(Fr(g, "data.ssn", 2), "ssn"), Tg(g, "data.ppid", 4, 99) >> \o
   DcepOpenLeaves(g \o <<"dcep">>) \o << Pd(SC \o <<"data">>, "data.pad", 4) >>
 
 SctpSack ==
   LET g == SC \o <<"sack", "sack.val">> IN
   SctpHdr \o ChunkHdr("sack") \o
-  << Fr(g, "cumtsn", 4), Fr(g, "arwnd", 4), Ct(g, "ngaps", 2, "gaps", 4), Ct(g, "ndups", 2, "dups", 4),
+  << Sq(Fr(g, "cumtsn", 4), "tsn_out"), Fr(g, "arwnd", 4), Ct(g, "ngaps", 2, "gaps", 4), Ct(g, "ndups", 2, "dups", 4),
      Lw(Vr(g, "gaps"), 4), Lw(Vr(g, "dups"), 4) >> \o << Pd(SC \o <<"sack">>, "sack.pad", 4) >>
 
 SctpHeartbeat == SctpHdr \o ChunkHdr("hb") \o Param(SC \o <<"hb", "hb.val">>, "hbinfo", 32767) \o
@@ -354,14 +359,14 @@ SctpHeartbeat == SctpHdr \o ChunkHdr("hb") \o Param(SC \o <<"hb", "hb.val">>, "h
 SctpForwardTsn ==
   LET g == SC \o <<"fwd", "fwd.val">> IN
   SctpHdr \o ChunkHdr("fwd") \o
-  << Fr(g, "newcum", 4), El(Fr(g \o <<"s1">>, "fsid1", 2)), Fr(g \o <<"s1">>, "fssn1", 2) >> \o
+  << Sq(Fr(g, "newcum", 4), "tsn_in"), El(Fr(g \o <<"s1">>, "fsid1", 2)), Sq(Fr(g \o <<"s1">>, "fssn1", 2), "ssn") >> \o
   << Pd(SC \o <<"fwd">>, "fwd.pad", 4) >>
 
 SctpReconfig ==
   LET g == SC \o <<"rc", "rc.val">> IN
   SctpHdr \o ChunkHdr("rc") \o
   << El(Tg(g \o <<"rp">>, "rp.t", 2, 32767)), Ln(g \o <<"rp">>, "rp.l", 2, "rp.v", 1, -4),
-     Fr(g \o <<"rp", "rp.v">>, "rqsn", 4), Fr(g \o <<"rp", "rp.v">>, "rssn", 4), Fr(g \o <<"rp", "rp.v">>, "lasttsn", 4),
+     Sq(Fr(g \o <<"rp", "rp.v">>, "rqsn", 4), "reconfig_sn"), Fr(g \o <<"rp", "rp.v">>, "rssn", 4), Sq(Fr(g \o <<"rp", "rp.v">>, "lasttsn", 4), "tsn_in"),
      Lw(Rs(g \o <<"rp", "rp.v">>, "streams"), 2), Pd(g \o <<"rp">>, "rp.p", 4) >> \o << Pd(SC \o <<"rc">>, "rc.pad", 4) >>
 
 SctpAbort    == SctpHdr \o ChunkHdr("abort") \o << Vr(SC \o <<"abort">>, "abort.val"), Pd(SC \o <<"abort">>, "abort.pad", 4) >>
@@ -371,7 +376,7 @@ SctpShutdown == SctpHdr \o ChunkHdr("sd") \o << Vr(SC \o <<"sd">>, "sd.val"), Pd
 SctpBundle ==
   LET g == SC \o <<"sack", "sack.val">> IN
   SctpHdr \o ChunkHdr("sack") \o
-  << Fr(g, "cumtsn", 4), Fr(g, "arwnd", 4), Ct(g, "ngaps", 2, "gaps", 4), Ct(g, "ndups", 2, "dups", 4),
+  << Sq(Fr(g, "cumtsn", 4), "tsn_out"), Fr(g, "arwnd", 4), Ct(g, "ngaps", 2, "gaps", 4), Ct(g, "ndups", 2, "dups", 4),
      Lw(Vr(g, "gaps"), 4), Lw(Vr(g, "dups"), 4) >> \o << Pd(SC \o <<"sack">>, "sack.pad", 4) >> \o
   ChunkHdr("data") \o DataBody("data") \o << Pd(SC \o <<"data">>, "data.pad", 4) >>
 
@@ -382,7 +387,7 @@ DcepAck  == << Tg(<<"dcep">>, "mtype", 1, 255) >>
 ---------------------------------------------------------------------------
 (* UDPTL  (transports/udptl.rs recv)                                        *)
 
-Udptl == << Fr(<<"udptl">>, "seq", 2), Ln(<<"udptl">>, "plen", 2, "primary", 1, 0), Vr(<<"udptl">>, "primary"),
+Udptl == << Sq(Fr(<<"udptl">>, "seq", 2), "udptl_seq"), Ln(<<"udptl">>, "plen", 2, "primary", 1, 0), Vr(<<"udptl">>, "primary"),
             El(Ln(<<"udptl", "r1">>, "r1len", 2, "r1", 1, 0)), Vr(<<"udptl", "r1">>, "r1"),
             El(Ln(<<"udptl", "r2">>, "r2len", 2, "r2", 1, 0)), Vr(<<"udptl", "r2">>, "r2") >>
 
